@@ -56,7 +56,8 @@ func cat(bs ...[]byte) []byte {
 	return out
 }
 
-var kscU32Edges = []uint32{0, 1, 2, 255, 256, 257, 65535, 65536, 1<<24 - 1, 1 << 24, math.MaxInt32, 1 << 31, math.MaxUint32 - 1, math.MaxUint32}
+// (0 comes last: it is the one value whose encoding does not depend on the byte order)
+var kscU32Edges = []uint32{1, 2, 255, 256, 257, 65535, 65536, 1<<24 - 1, 1 << 24, math.MaxInt32, 1 << 31, math.MaxUint32 - 1, math.MaxUint32, 0}
 
 var kscIntEdges = []int64{0, 1, -1, 8, 16, 16384, 262144, math.MaxInt32, math.MaxInt32 + 1, math.MaxUint32, math.MaxUint32 + 1,
 	math.MaxInt64, math.MaxInt64 - 1, math.MinInt64, math.MinInt64 + 1, -256, 255, 256, 1 << 40, -(1 << 40)}
